@@ -35,6 +35,11 @@ CHECKS = {
          "Every listed function is called on every class n <= 7 (8 thorough) x 6 labellings x 5 representations, on 57 named families with published values and on seeded graphs up to 13 vertices: values must equal brute force; colourings proper with exactly chi colours; edge colourings proper with exactly chi' colours in 1..chi' and 0 on non-edges; maximal cliques exactly the set, each once, channel closed (bounded receive); IsKColorable for all k in 0..n+1; polynomial evaluated at k = 0..n+1 = number of proper k-colourings; GreedyColor = reference first fit on all orders (n <= 5); degeneracy order certificate.",
          "Trusts the brute-force oracles (self-checked against published chi/omega tables) on the sizes used.",
          "DESIGN.md section 4 C09"),
+ "C10": ("exploration",
+         "runtime monitoring: definition-based oracles (BFS distances, vertex-deletion cut vertices, edge-equivalence blocks, cycle / induced path / induced cycle enumerators) per call across relabellings and four representations; constructed block forests with known structure",
+         "Distance (all pairs), Eccentricity, Diameter, Radius, Girth, ConnectedComponent(s), BiconnectedComponents, NumberOfCycles and NumberOfInducedCycles/Paths for every bound -1..n+1 are called on every class n <= 7 (8 thorough) x 4 labellings, all labelled graphs n <= 5 (6), 101 families, 480 (4800) constructed block forests / cacti up to 30 vertices and 640 (6400) seeded graphs, each as dense, sparse, induced view and complement view; results are compared with the oracles, vertex-indexed results mapped through the relabelling; entries beyond the bound are not judged.",
+         "Trusts the conn oracles (self-checked on closed forms and against the brute-force package).",
+         "DESIGN.md section 4 C10"),
  "C12": ("exploration",
          "runtime monitoring: model-based oracle (sorted word list, ranks = indices, minimal DFA size by hash-consing right languages) on every built automaton, Add histories with rejected words, node structure read through a verif-tagged accessor",
          "For all 2^15 word sets over {a,b} (length <= 3), all 2^13 over {a,b,c} (length <= 2), seeded sets over alphabets of 1..256 bytes up to 5000 words (thorough: 2^21 sets, the dictionary) every member, prefix, extension, one-byte edit and random probe is looked up and compared with the model (rank = index), NumberOfWords, node count (GobEncode header and accessor) = minimal DFA size, per-node word counts = right-language sizes; Add histories with out-of-order / duplicate / nil / caller-mutated words must reject exactly those and build the accepted subsequence.",
